@@ -43,7 +43,9 @@ def signature_policy_from_dict(policy: dict[str, Any]) -> SignaturePolicy:
     )
 
 
-def signers_from_list(signers: list[dict[str, Any]]) -> set[Signer] | None:
+def signers_from_list(
+    signers: dict[str, Any] | list[dict[str, Any]],
+) -> set[Signer] | None:
     """
     Parse RequestBundle signers.
 
@@ -54,6 +56,9 @@ def signers_from_list(signers: list[dict[str, Any]]) -> set[Signer] | None:
     """
     if not signers:
         return None
+    if not isinstance(signers, list):
+        # handle a single Signer in the bundle
+        signers = [signers]
     return {Signer(key_identifier=this["attrs"]["keyIdentifier"]) for this in signers}
 
 
